@@ -1,4 +1,164 @@
-/-! Line-protocol driver for property C02 (stub until the model exists). -/
-def main (_args : List String) : IO UInt32 := do
-  IO.eprintln "drv_c02: no model yet"
-  return 2
+import CprocVerif.Spec.Qbe
+import CprocVerif.Spec.QbeParse
+import CprocVerif.Spec.QbeWf
+import CprocVerif.Spec.QbeLink
+import CprocVerif.Spec.QbeLibc
+/-! Driver for property C02: run a multi-module IL program (stage 2 of cproc) under the formal IL
+    semantics with the mini C library of `Spec/QbeLibc.lean`.
+
+    drv_c02 run --module a.ssa … [--file vpath=hostpath]… [--stdin hostpath] [--stdout-to f]
+            [--stderr-to f] [--fuel N] -- argv0 args…
+    drv_c02 externs --module a.ssa …      (symbols no module defines, and which the library lacks)
+    drv_c02 wf --module a.ssa …           (wf of the linked program, incl. cross-module calls) -/
+
+open CprocVerif.Qbe
+
+structure Opts where
+  modules : Array String := #[]
+  files : Array (String × String) := #[]
+  stdin : Option String := none
+  stdoutTo : Option String := none
+  stderrTo : Option String := none
+  fuel : Nat := 20000000000
+  argv : List String := []
+
+def parseOpts : List String → Opts → Except String Opts
+  | [], o => .ok o
+  | "--" :: rest, o => .ok { o with argv := rest }
+  | "--module" :: m :: rest, o => parseOpts rest { o with modules := o.modules.push m }
+  | "--file" :: f :: rest, o =>
+    match f.splitOn "=" with
+    | [v, h] => parseOpts rest { o with files := o.files.push (v, h) }
+    | _ => .error ("bad --file " ++ f)
+  | "--stdin" :: f :: rest, o => parseOpts rest { o with stdin := some f }
+  | "--stdout-to" :: f :: rest, o => parseOpts rest { o with stdoutTo := some f }
+  | "--stderr-to" :: f :: rest, o => parseOpts rest { o with stderrTo := some f }
+  | "--fuel" :: n :: rest, o => parseOpts rest { o with fuel := n.toNat?.getD o.fuel }
+  | a :: _, _ => .error ("unknown option " ++ a)
+
+def loadModules (paths : Array String) : IO (Except String (List Module)) := do
+  let mut ms : Array Module := #[]
+  for p in paths do
+    try
+      let bytes ← IO.FS.readBinFile p
+      match parseModuleBytes bytes with
+      | .ok m => ms := ms.push m
+      | .error e => return .error (p ++ ": " ++ e)
+    catch e => return .error ("cannot read " ++ p ++ ": " ++ (toString e).replace "\n" " ")
+  return .ok ms.toList
+
+/-- bytes of a Latin-1 trace entry (without its tag) -/
+def unLatin1 (s : String) (acc : ByteArray) : ByteArray :=
+  (s.drop 1).toString.foldl (fun b c => b.push c.toNat.toUInt8) acc
+
+def collect (trace : Array String) : ByteArray × ByteArray × List String :=
+  trace.foldl (fun (acc : ByteArray × ByteArray × List String) e =>
+    if e.startsWith "o" then (unLatin1 e acc.1, acc.2.1, acc.2.2)
+    else if e.startsWith "e" then (acc.1, unLatin1 e acc.2.1, acc.2.2)
+    else (acc.1, acc.2.1, e :: acc.2.2)) (ByteArray.empty, ByteArray.empty, [])
+
+def cmdRun (o : Opts) : IO UInt32 := do
+  let out ← IO.getStdout
+  match (← loadModules o.modules) with
+  | .error e => out.putStrLn ("broken parse: " ++ e); return 2
+  | .ok ms =>
+    let mut files : List (String × ByteArray) := []
+    for (v, h) in o.files do
+      try
+        files := files ++ [(v, ← IO.FS.readBinFile h)]
+      catch e => out.putStrLn ("broken cannot read " ++ h ++ ": " ++ (toString e).replace "\n" " "); return 2
+    let stdin ← match o.stdin with
+      | some h => (try IO.FS.readBinFile h catch _ => pure ByteArray.empty)
+      | none => pure ByteArray.empty
+    let env := Libc.envModule files stdin o.argv
+    match linkModules (ms ++ [env]) with
+    | .error e => out.putStrLn ("broken " ++ e); return 2
+    | .ok linked =>
+      match Libc.prepare (Prog.ofModule linked) with
+      | .error e => out.putStrLn ("broken " ++ e); return 2
+      | .ok (p, ctx) =>
+        let ext := Libc.libcExt p ctx
+        let argvAddr := (p.symAddr["__libc_argv"]?).getD 0
+        let nparams := match p.funcs["main"]? with
+          | some fi => fi.f.params.length
+          | none => 2
+        let args : List (Ty × RVal) :=
+          ([(.base .w, ⟨.w, o.argv.length.toUInt64⟩), (.base .l, ⟨.l, argvAddr.toUInt64⟩)] :
+            List (Ty × RVal)).take nparams
+        let (oc, steps) := Libc.runMain p ext "main" args o.fuel
+        let (so, se, other) := collect oc.trace
+        -- glibc's assert prints `<prog>: <file>:<line>: <func>: Assertion `<e>' failed.` and aborts
+        let prog := ((o.argv.headD "a.out").splitOn "/").getLastD "a.out"
+        let se := match oc.end with
+          | .trap r =>
+            if r.startsWith "abort: assertion failed: " then
+              (r.drop "abort: assertion failed: ".length).toString.foldl
+                (fun b c => b.push c.toNat.toUInt8) (se ++ (prog ++ ": ").toUTF8) |>.push 10
+            else se
+          | _ => se
+        match o.stdoutTo with
+        | some f => IO.FS.writeBinFile f so
+        | none => pure ()
+        match o.stderrTo with
+        | some f => IO.FS.writeBinFile f se
+        | none => pure ()
+        let line := match oc.end with
+          | .ret (.scalar v) => "status " ++ toString (v.bits &&& 0xff).toNat
+          | .ret .none => "status 0"
+          | .exit n => "status " ++ toString (n.toNat % 256)
+          | e => (e.render.replace "\n" " ")
+        out.putStrLn line
+        out.putStrLn ("steps " ++ toString steps)
+        for e in other.reverse do
+          if e.startsWith "F" then out.putStrLn ("freopen " ++ (e.drop 1).toString)
+        -- where did it stop?  (the semantics is deterministic: replay `steps` steps)
+        match oc.end with
+        | .ret _ | .exit _ => pure ()
+        | _ =>
+          match initState p "main" args with
+          | .ok s0 =>
+            match Libc.stateAfter p ext steps s0 with
+            | some s => out.putStrLn ("at " ++ Libc.describe s)
+            | none => pure ()
+          | .error _ => pure ()
+        return 0
+
+def cmdExterns (o : Opts) : IO UInt32 := do
+  match (← loadModules o.modules) with
+  | .error e => IO.println ("broken parse: " ++ e); return 2
+  | .ok ms =>
+    match linkModules ms with
+    | .error e => IO.println ("broken " ++ e); return 2
+    | .ok linked =>
+      let und := linked.undefinedSyms
+      let env := Libc.envModule [] ByteArray.empty []
+      let p := Prog.ofModule env
+      let have_ : List String := Libc.libcNames p ++ env.datas.map (·.name)
+      IO.println ("externs " ++ " ".intercalate und)
+      IO.println ("missing " ++ " ".intercalate (und.filter fun n => !have_.contains n))
+      return 0
+
+def cmdWf (o : Opts) : IO UInt32 := do
+  match (← loadModules o.modules) with
+  | .error e => IO.println ("bad parse: " ++ e); return 0
+  | .ok ms =>
+    match linkModules (ms ++ [Libc.envModule [] ByteArray.empty ["a"]]) with
+    | .error e => IO.println ("bad " ++ e); return 0
+    | .ok linked =>
+      match wf linked with
+      | .error e => IO.println ("bad " ++ e)
+      | .ok () => IO.println s!"ok {linked.funcs.length} {linked.datas.length} {linked.types.length}"
+      return 0
+
+def main (args : List String) : IO UInt32 := do
+  match args with
+  | cmd :: rest =>
+    match parseOpts rest {} with
+    | .error e => IO.eprintln e; return 2
+    | .ok o =>
+      match cmd with
+      | "run" => cmdRun o
+      | "externs" => cmdExterns o
+      | "wf" => cmdWf o
+      | _ => IO.eprintln "usage: drv_c02 run|externs|wf --module FILE… [options] [-- argv…]"; return 2
+  | [] => IO.eprintln "usage: drv_c02 run|externs|wf --module FILE… [options] [-- argv…]"; return 2
